@@ -44,3 +44,32 @@ Proof.
   exists false, (10#1)%Q, [st_gate_raises], 3, 0%nat, 3, st_gate_raises, (fun _ => GRaise).
   vm_compute. repeat split; auto; discriminate.
 Qed.
+
+(* ---------------------------------------------------------------------- *)
+(* the fork pattern *)
+
+(* hypotheses of c19_parallel_gate_fail_closed / c19_parallel_outputs are satisfiable *)
+Example ex_par_success :
+  let r := run_par false [st_ok; st_ok] 3 in
+  In (1%nat, CbProc, 3) (p_log r) /\ p_success r = true /\ p_outputs r = Some [7; 7].
+Proof. vm_compute. repeat split; auto 10. Qed.
+
+(* a closed gate and a raising gate: the stages do not run, the run is unsuccessful, nothing is released *)
+Example ex_par_blocked :
+  let r := run_par false [st_reject; st_ok; st_gate_raises] 3 in
+  p_success r = false /\ p_outputs r = None /\
+  p_log r = [(0%nat, CbCheck, 3); (1%nat, CbCheck, 3); (1%nat, CbProc, 3); (2%nat, CbCheck, 3)] /\
+  map (fun x : sres => snd (fst x)) (p_results r) = [Blocked; Completed; Failed].
+Proof. vm_compute. auto. Qed.
+
+(* run_parallel before fix 5d83f4c ([ungated = true]) violated the gate property: the stage processes the
+   signal although its checkpoint rejects it, and the run is reported successful *)
+Lemma c19_legacy_parallel_gate_ignored_refuted :
+  exists stages x0 i x s c,
+    In (i, CbProc, x) (p_log (run_par true stages x0)) /\
+    nth_error stages i = Some s /\ s_check s = Some c /\ c x <> GPass /\
+    p_success (run_par true stages x0) = true.
+Proof.
+  exists [st_reject; st_ok], 3, 0%nat, 3, st_reject, (fun _ => GReject).
+  vm_compute. repeat split; auto; discriminate.
+Qed.
